@@ -26,7 +26,7 @@ func (C02) Info() core.Info {
 	return core.Info{
 		Rule:        "worlds biased to non-derivability: planned worlds with a supply or a link deleted, prerequisites only reachable through a converter that needs the thing itself, mutual cycles of 2-3 multi-input converters, subtype mismatches, plus random worlds. Judged only when some target parameter has no PERMIT-match in the least fixpoint of PERMIT-derivable labels (upper bound incl. generator-offered converters): Call must return a non-nil error, the target must not run, no party may run with an invented argument; when moreover every supplied converter fires in the EXPECT fixpoint the error must be the dedicated unsatisfied-argument type. Divergence or panic counts as not returning an error. Non-trivial: >=1 converter supplied; distinct = distinct (world shape, event-log hash)",
 		Assumptions: []string{"PERMIT over-approximates every binding a correct library may make (C01), so a parameter outside its fixpoint is truly underivable"},
-		Probes:      []string{"c02_underivable_calls", "c02_with_cycle", "c02_dedicated_error_required", "c02_converter_ran_before_refusal", "s1_nonidentity_perms"},
+		Probes:      []string{"c02_underivable_calls", "c02_with_cycle", "c02_after_successful_call", "c02_dedicated_error_required", "c02_converter_ran_before_refusal", "s1_nonidentity_perms"},
 		Real:        realComponents,
 		Simulated:   simComponents,
 	}
@@ -104,25 +104,91 @@ func (C02) Gen(r *simrt.RNG, tier string) core.Case {
 	switch x := r.Intn(20); {
 	case x < 11:
 		w = world.GenPlanned(r, cfg)
+		full := w.Ops[0]
+		full.Args = append([]int{}, full.Args...)
 		breakWorld(r, &w)
+		if r.Chance(1, 8) {
+			// a run-once target that has already succeeded must still refuse an underivable call
+			// (other run-once parties are excluded: a memoised converter is used without
+			// looking at its inputs again, which is C11's business and no derivation failure)
+			for pi := range w.Parties {
+				w.Parties[pi].Once = pi == 0
+			}
+			w.Ops = []world.Op{full, w.Ops[0]}
+		}
 	case x < 12:
-		w = genMutualCycle(r)
+		if r.Bool() {
+			w = genMutualCycle(r)
+		} else {
+			w = genAssignableNotIdentical(r)
+		}
 	default:
 		w = world.GenWorld(r, cfg)
 	}
 	return RCase{W: w}
 }
 
+// genAssignableNotIdentical: the only available value is of a type that is
+// assignable to the parameter's type without being it (a defined slice type and
+// the unnamed type it is built on): not an interface, so no derivation.
+func genAssignableNotIdentical(r *simrt.RNG) world.World {
+	have, need := world.SliceDef, world.SliceRaw
+	if r.Bool() {
+		have, need = need, have
+	}
+	other := r.Intn(8)
+	t := world.Party{InForm: world.FormPositional, OutForm: world.FormPositional, In: []world.Slot{{Label: world.Label{Type: need}}}, HasErr: r.Bool()}
+	if r.Bool() {
+		t.InForm = world.FormStruct
+		if r.Bool() {
+			t.In[0].Name = world.Names[r.Intn(4)]
+		}
+	}
+	if r.Bool() {
+		t.In = append(t.In, world.Slot{Label: world.Label{Type: other}})
+	}
+	w := world.World{Parties: []world.Party{t}}
+	var args []int
+	add := func(a world.ArgSpec) { w.Args = append(w.Args, a); args = append(args, len(w.Args)-1) }
+	add(world.ArgSpec{Kind: world.ArgTyped, Label: world.Label{Type: other}})
+	if r.Bool() {
+		l := world.Label{Type: have}
+		a := world.ArgSpec{Kind: world.ArgTyped, Label: l}
+		if r.Bool() && t.In[0].Name != "" {
+			a.Kind, a.Label.Name, a.Spell = world.ArgNamed, t.In[0].Name, t.In[0].Name
+		}
+		add(a)
+	} else {
+		w.Parties = append(w.Parties, world.Party{InForm: world.FormPositional, OutForm: world.FormPositional, In: []world.Slot{{Label: world.Label{Type: other}}}, Out: []world.Slot{{Label: world.Label{Type: have}}}, HasErr: r.Bool()})
+		add(world.ArgSpec{Kind: world.ArgConv, Party: 1})
+	}
+	w.Ops = []world.Op{{Kind: world.OpCall, Target: 0, Args: args}}
+	return w
+}
+
 func c02Valid(w world.World) bool {
-	if len(w.Ops) != 1 || w.Ops[0].Kind != world.OpCall || len(w.Faults) != 0 {
+	if len(w.Ops) < 1 || len(w.Ops) > 2 || len(w.Faults) != 0 {
 		return false
 	}
-	v := model.ViewOf(&w, 0)
+	for _, o := range w.Ops {
+		if o.Kind != world.OpCall || o.Target != w.Ops[0].Target {
+			return false
+		}
+	}
+	last := len(w.Ops) - 1
+	if last > 0 {
+		for pi, p := range w.Parties {
+			if p.Once && pi != w.Ops[0].Target {
+				return false
+			}
+		}
+	}
+	v := model.ViewOf(&w, last)
 	if v.HasNilOpt || v.HasBadConv {
 		return false
 	}
 	avail, _ := model.LFP(&w, v, model.Permit, true)
-	return len(model.Missing(&w, w.Ops[0].Target, avail, model.Permit)) > 0
+	return len(model.Missing(&w, w.Ops[last].Target, avail, model.Permit)) > 0
 }
 
 func (C02) Decode(raw json.RawMessage) (core.Case, error) { return decodeRCase(raw) }
@@ -169,8 +235,9 @@ func (C02) Run(c core.Case, ctx *core.Ctx) []core.Violation {
 		return nil
 	}
 	sh := world.ShapeHash(w)
-	view := model.ViewOf(&w, 0)
-	tgt := w.Ops[0].Target
+	last := len(w.Ops) - 1
+	view := model.ViewOf(&w, last)
+	tgt := w.Ops[last].Target
 	// dedicated error type required when every supplied converter is satisfiable (strict reading)
 	_, firedE := model.LFP(&w, view, model.Expect, false)
 	dedicated := !view.HasGen
@@ -195,7 +262,10 @@ func (C02) Run(c core.Case, ctx *core.Ctx) []core.Violation {
 		if cyc {
 			ctx.St.Inc("c02_with_cycle")
 		}
-		res := rt.Results[0]
+		res := rt.Results[last]
+		if last > 0 && rt.Results[0].Returned && rt.Results[0].Err == nil {
+			ctx.St.Inc("c02_after_successful_call")
+		}
 		if !res.Returned {
 			add(res.PanicClass, res.PanicSite, "underivable call did not return an error: "+trunc(res.PanicDetail))
 		} else {
